@@ -25,9 +25,8 @@
 package main
 
 import (
+	"flag"
 	"fmt"
-	"runtime"
-	"sync"
 	"sync/atomic"
 	"time"
 
@@ -464,6 +463,7 @@ type worker struct {
 	stamp   [65536]uint32 // sequence number -> epoch in which it was last delivered
 	epoch   uint32
 	cnt     map[string]int64
+	hashes  []uint64 // distinct non-trivial histories (hash of mode, buffer size, start, plan, parameters)
 }
 
 func newWorker() *worker { return &worker{cnt: map[string]int64{}} }
@@ -758,7 +758,7 @@ func (w *worker) runHistory(sp *spec) {
 		if sp.Plan == "mixed" || !unrel { // PRNG plans: the arrival sequence is a function of the plan seed
 			h = mix(h, sp.RSeed)
 		}
-		run.DistinctHash(h)
+		w.hashes = append(w.hashes, h)
 	}
 	if ok && sp.Plan == "mixed" && run.WantSample() {
 		s := *sp
@@ -996,8 +996,12 @@ func watchdog(stop chan struct{}) {
 // ---------------------------------------------------------------------------------------------
 
 func main() {
+	shard := flag.Int("shard", -1, "child mode: index of this shard")
+	shards := flag.Int("shards", 1, "child mode: number of shards")
+	hashOut := flag.String("hashes", "", "child mode: file receiving the hashes of the distinct non-trivial histories")
 	run = vlib.Start("C14", "exploration")
-	if run.Replay != "" {
+	switch {
+	case run.Replay != "":
 		var sp spec
 		if err := run.LoadReplay(&sp); err != nil {
 			run.Fatal("cannot load replay: %v", err)
@@ -1006,37 +1010,33 @@ func main() {
 			run.Violation(sp.Mode+"/process-packet-hang", "ProcessPacket2 does not return", sp)
 		}
 		run.Finish(evals.Load(), "replay")
-		return
+	case *shard >= 0:
+		child(*shard, *shards, *hashOut)
+	default:
+		parent()
 	}
+}
+
+// child runs the jobs of one shard on a single P. Creating and closing a Receiver (goroutine +
+// ticker + two channel hand-offs) costs ~1 us on one P but ~6 us of wall time per receiver when 16
+// Ps do it concurrently inside one process (scheduler contention), which is why the work is
+// sharded over single-P child processes rather than over goroutines.
+func child(shard, shards int, hashOut string) {
 	thorough := !run.Quick()
-	slots = make([]slot, runtime.GOMAXPROCS(0)+1)
+	slots = make([]slot, 1)
 	stop := make(chan struct{})
 	go watchdog(stop)
-
-	workers := make([]*worker, len(slots))
-	var wmu sync.Mutex
-	getWorker := func(k int) *worker {
-		wmu.Lock()
-		defer wmu.Unlock()
-		if workers[k] == nil {
-			workers[k] = newWorker()
-		}
-		return workers[k]
-	}
-	onPanic := func(what string) func(i int, v any, stack string) {
-		return func(i int, v any, stack string) { // histories recover their own panics; this is harness code
-			run.Fatal("%s job %d: panic outside a history: %v\n%s", what, i, v, stack)
-		}
-	}
+	w := newWorker()
+	mine := func(job int) bool { return job%shards == shard }
 
 	// 1. systematic: every start value 0..65535
-	var covered [65536]atomic.Bool
 	nSizes := run.Pick(3, len(bufSizes))
-	rounds := 1
 	const startsPerJob = 64
-	run.Parallel(65536/startsPerJob, func(k, job int) {
-		w := getWorker(k)
-		var plans []planSel
+	var plans []planSel
+	for job := 0; job < 65536/startsPerJob; job++ {
+		if !mine(job) {
+			continue
+		}
 		for s := job * startsPerJob; s < (job+1)*startsPerJob; s++ {
 			start := uint16(s)
 			for j := 0; j < nSizes; j++ {
@@ -1045,38 +1045,38 @@ func main() {
 					bi = (s + 3*j + s/10) % len(bufSizes)
 				}
 				B := bufSizes[bi]
-				for rd := 0; rd < rounds; rd++ {
-					plans = battery(B, mix(uint64(run.Seed), uint64(s), uint64(B), uint64(rd)), thorough, plans)
-					for pi, ps := range plans {
-						sp := mkSpec(ps, B, start, mix(uint64(run.Seed), uint64(s), uint64(B), uint64(rd), uint64(pi)))
-						w.guard(k, &sp)
-					}
+				plans = battery(B, mix(uint64(run.Seed), uint64(s), uint64(B)), thorough, plans)
+				for pi, ps := range plans {
+					sp := mkSpec(ps, B, start, mix(uint64(run.Seed), uint64(s), uint64(B), uint64(pi)))
+					w.guard(0, &sp)
 				}
 			}
-			covered[s].Store(true)
+			w.cnt["start-values-covered"]++
 		}
-		w.flush()
-	}, onPanic("systematic"))
+	}
 
 	// 2. two full wraps in order (131072+ packets), a subset of start values and buffer sizes
 	nLong := run.Pick(64, 1024)
-	run.Parallel(nLong, func(k, i int) {
-		w := getWorker(k)
+	for i := 0; i < nLong; i++ {
+		if !mine(i) {
+			continue
+		}
 		start := uint16(i * (65536 / nLong))
 		if i%2 == 1 {
 			start += uint16(mix(uint64(run.Seed), uint64(i)) % uint64(65536/nLong))
 		}
 		B := bufSizes[i%len(bufSizes)]
 		sp := mkSpec(planSel{"long", 140000, 0, i%8 == 7}, B, start, mix(uint64(run.Seed), 77, uint64(i)))
-		w.guard(k, &sp)
-		w.flush()
-	}, onPanic("long"))
+		w.guard(0, &sp)
+	}
 
 	// 3. sampled: PRNG histories (mixed faults; reliable mode with arbitrary numbers)
 	nSampled := run.Pick(400_000, 12_000_000)
 	const perJob = 2000
-	run.Parallel(nSampled/perJob, func(k, job int) {
-		w := getWorker(k)
+	for job := 0; job < nSampled/perJob; job++ {
+		if !mine(job) {
+			continue
+		}
 		r := rng(mix(uint64(run.Seed), 1234, uint64(job)))
 		for i := 0; i < perJob; i++ {
 			B := bufSizes[r.intn(len(bufSizes))]
@@ -1096,43 +1096,14 @@ func main() {
 				}
 			}
 			sp := mkSpec(ps, B, start, r.next())
-			w.guard(k, &sp)
+			w.guard(0, &sp)
 		}
-		w.flush()
-	}, onPanic("sampled"))
+	}
 	close(stop)
-
-	nCov := 0
-	for i := range covered {
-		if covered[i].Load() {
-			nCov++
-		}
+	w.flush()
+	writeHashes(hashOut, w.hashes)
+	for _, h := range w.hashes {
+		run.DistinctHash(h)
 	}
-	run.Extra("start_values_covered", nCov)
-	run.Extra("buffer_sizes", bufSizes)
-	run.Extra("buffer_sizes_per_start_value", nSizes)
-	run.Extra("exhaustive_subspace", "start sequence number: all 65536 values, each with the complete plan battery for its buffer sizes")
-	if nCov == 65536 {
-		run.Exhaustive(true)
-	} else {
-		run.Exhaustive(false)
-	}
-	if run.Get("no-drop-histories") == 0 || run.Get("restarts-followed") == 0 || run.Get("reports-compared") == 0 ||
-		run.Get("calls-reporting-loss") == 0 || run.Get("wraps-crossed") == 0 {
-		if run.Violations() == 0 {
-			run.Fatal("a monitor clause observed nothing (no-drop=%d restarts=%d reports=%d loss=%d wraps=%d)", run.Get("no-drop-histories"),
-				run.Get("restarts-followed"), run.Get("reports-compared"), run.Get("calls-reporting-loss"), run.Get("wraps-crossed"))
-		}
-	}
-	run.Assume("no-drop clause: packets whose sequence number precedes the very first arrival are outside the claim (the receiver cannot know of them)")
-	run.Assume("no-drop clause is asserted only in displacement-only histories (one packet moved by d < BufferSize with >= 2*BufferSize in-order packets on both sides, or all displacements <= d with 2d < BufferSize); eligibility is computed from the arrival sequence")
-	run.Assume("a detected restart = the arriving packet delivered alone as the (BufferSize+1)-th consecutive arrival that is not ahead of the last delivery; forward distance exactly 32768 is accepted both as ahead and as behind")
-	run.Assume("extended highest sequence number: wraps are counted over forward deliveries; a restart delivery (or, in reliable mode, a backward step) may or may not be counted as a cycle")
-	run.Assume("fraction lost is not compared for a report interval with more than 2^24-1 losses (reachable only in reliable mode with repeated / decreasing sequence numbers)")
-	run.Assume("buffer sizes are powers of two 1..512; OnPacketsLost integration is checked by C01")
-	run.Finish(evals.Load(),
-		"systematic: every start sequence number 0..65535 x buffer sizes x a battery of plans (in order, single packet moved later/earlier by d, late by B-1/B/B+1, "+
-			"loss bursts 1..B+2 with and without flush, duplicates near/far/of a buffered packet/scattered/runs of B..2B+3, restarts of 10 kinds incl. start-1 and start+32768+-1 and mid-hole, "+
-			"bounded shuffles, PRNG mixes, reliable mode with gaps / arbitrary / decreasing numbers) whose parameters rotate with the start value; two-wrap in-order runs; PRNG-sampled mixes. "+
-			"distinct_nontrivial = distinct (mode, buffer size, start, plan, parameters) histories that delivered >= 2 packets and contain a fault or a wrap")
+	run.Finish(evals.Load(), fmt.Sprintf("shard %d of %d", shard, shards))
 }
